@@ -51,13 +51,22 @@ DataProgMerged(i, errFirst) ==
     IN [id |-> (IF errFirst THEN "DE" ELSE "DS") \o ToString(i), family |-> "data",
         methods |-> IF errFirst THEN <<e, s>> ELSE <<s, e>>]
 
+(* two methods of one handler name that agree on the payload type but not on the raw marker *)
+MixProg(i) ==
+    LET first == IF i \in {1, 2} THEN "raw" ELSE "bin"
+        other == IF first = "raw" THEN "bin" ELSE "raw"
+        s == [RM(1, <<"h1">>, "success", IF i \in {1, 3} THEN first ELSE other, "none") EXCEPT !.name = "on_ok"]
+        e == [RM(1, <<"h1">>, "error", IF i \in {1, 3} THEN other ELSE first, "none") EXCEPT !.name = "on_err"]
+    IN [id |-> "PM" \o ToString(i), family |-> "data", methods |-> IF i \in {1, 3} THEN <<s, e>> ELSE <<e, s>>]
+
 CompiledProgs ==
     TLCEval(SetToSeq(
            {[TableProg(i) EXCEPT !.family = "compiled"] : i \in CompiledIdx}
       \cup {[id |-> "T" \o ToString(i) \o "r", family |-> "compiled", methods |-> Reverse(TableSeq[i])] :
                  i \in {j \in CompiledIdx : Len(TableSeq[j]) > 1}}
       \cup {DataProg(i) : i \in 1..Len(DataModes)}
-      \cup {DataProgMerged(i, b) : i \in {1, 3, 5}, b \in BOOLEAN}))
+      \cup {DataProgMerged(i, b) : i \in {1, 3, 5}, b \in BOOLEAN}
+      \cup {MixProg(i) : i \in 1..4}))
 
 (* ------------------------------------------------------------ the machine *)
 Progs == CompiledProgs
